@@ -32,7 +32,8 @@ def all_harnesses():
             h = Harness(f"c07_failmin_b{before}_k{k}", f"crate::c06::failing_minimal({before}, {k})", unwind=28,
                         unit="Graph::run error propagation (stream-less blocks)", stubs=GSTUBS, timeout=1500,
                         shape={"blocks_before": before, "k": k}, core=((before, k) in ((0, 1), (1, 2))))
-            h.quick_timeout = 800
+            h.quick_timeout = 870
+            h.priority = True
             hs.append(h)
     for j in (1, 2, 3):
         for (ln, inf) in ((3, False), (2, True)):
@@ -46,4 +47,4 @@ def all_harnesses():
 
 
 def harnesses(tier, seed):
-    return select(all_harnesses(), tier, seed, 4, max_one=400)
+    return select(all_harnesses(), tier, seed, 2, max_priority=400)
